@@ -25,7 +25,7 @@ mutual
       · have e1 : mapAt nd (fun _ => S') (.node h v ks) = .node h v (mapAtList nd (fun _ => S') ks) := by
           unfold mapAt; rw [if_neg hh]
         rw [e1]
-        simp only [handles_node, List.filter_cons]
+        simp only [fi_handles_node, List.filter_cons]
         rw [handlesList_graft_filter nd S' P ks (fun i k hik q S0 hq hS0 =>
           hx (i :: q) S0 (by simp only [HTree.at?, hik]; exact hq) hS0)]
   theorem handlesList_graft_filter (nd : Nat) (S' : HTree) (P : Nat → Bool) : ∀ ks : List HTree,
@@ -34,7 +34,7 @@ mutual
       (handlesList (mapAtList nd (fun _ => S') ks)).filter P = (handlesList ks).filter P
     | [], _ => rfl
     | k :: ks, hx => by
-      simp only [mapAtList, handlesList_cons, List.filter_append]
+      simp only [mapAtList, fi_handlesList_cons, List.filter_append]
       rw [handles_graft_filter nd S' P k (hx 0 k rfl),
         handlesList_graft_filter nd S' P ks (fun i k' hik => hx (i + 1) k' (by simpa using hik))]
 end
@@ -63,7 +63,7 @@ theorem mem_handlesList_getElem? : ∀ (ks : List HTree) (x : Nat), x ∈ handle
     ∃ (j : Nat) (k : HTree), ks[j]? = some k ∧ x ∈ handles k
   | [], _, h => by simp [handlesList] at h
   | k :: ks, x, h => by
-    simp only [handlesList_cons, List.mem_append] at h
+    simp only [fi_handlesList_cons, List.mem_append] at h
     rcases h with h | h
     · exact ⟨0, k, rfl, h⟩
     · obtain ⟨j, k', hj, hk'⟩ := mem_handlesList_getElem? ks x h
@@ -117,20 +117,20 @@ theorem fpxr_path_stable {f f' : Forest} (hi : f.Inv) (hi' : f'.Inv) {nd : Nat} 
     intro hm
     have hxS' : x ∈ handles S' := by
       cases S' with
-      | node a b c => simp only [handles_node, List.mem_cons]; exact Or.inr hm
+      | node a b c => simp only [fi_handles_node, List.mem_cons]; exact Or.inr hm
     have hlt : x < f.next := hi.below x (ftrav_mem_handlesList _ r x hrm hxr)
     have hxS : x ∈ handles S := by
       rw [← hfil]; exact List.mem_filter.mpr ⟨hxS', by simpa using hlt⟩
     have hnd' : (handles S').Nodup := Fmap.findList?_nodup nd f'.roots S' hi'.nodup hg'
     cases S with
     | node a b c =>
-      simp only [handles_node, List.mem_cons] at hxS
+      simp only [fi_handles_node, List.mem_cons] at hxS
       rcases hxS with e | e
       · simp only [HTree.handle] at hSh
         cases S' with
         | node a' b' c' =>
           simp only [HTree.handle] at hS'h
-          simp only [handles_node, List.nodup_cons] at hnd'
+          simp only [fi_handles_node, List.nodup_cons] at hnd'
           simp only [HTree.kids] at hm
           exact hnd'.1 (by rw [hS'h, ← hSh, ← e]; exact hm)
       · exact h1 e
